@@ -251,13 +251,13 @@ def run(run):
         if jdump(s) not in seen:
             seen.add(jdump(s)); uniq.append(s)
     secs = [Section("terms", [{"c": c, "ops": s} for s in uniq for c in (1.0, -0.5, 2.5)], term_case, horizon=300, desc="single-term evolution vs cos(ct) I - i sin(ct) P, certificate + 8-point grid")]
-    sp = [{"kind": "constant"}, {"kind": "tiny-imag"}, {"kind": "method"}] + [{"kind": "imag", "c": c} for c in ([1, 0.5], [1, -0.5], [0, 0.5], [0, -0.5], [1, 1e-3], [1, -1e-3])]
+    sp = [{"kind": "constant"}, {"kind": "tiny-imag"}, {"kind": "method"}] + [{"kind": "imag", "c": c} for c in ([1, 0.5], [1, -0.5], [0, 0.5], [0, -0.5], [1, 1e-3], [1, -1e-3],
+                                                                                                   # small in relative terms, still far (>= 1000x) above the 1e-9 cut: dropping them changes exp(-itH) visibly
+                                                                                                   [1, 1e-6], [1, -1e-6], [2.5, 1e-5], [1000, 5e-3], [1000, -5e-3], [1e-3, 1e-6], [0, 1e-6], [123456.0, 1e-3])]
     secs.append(Section("special", sp, special_case, desc="constant terms, imaginary-part guard (both signs), unknown method"))
     times = [0.37, -1.3, 2.9] if thorough else [0.37, -1.3]
     L = 3 if thorough else 2
-    lists = [list(c) for k in range(1, L + 1) for c in itertools.product(range(len(POOL)), repeat=k)]
-    if not thorough:
-        lists += [[0, 1, 0], [3, 0, 3], [1, 2, 1], [5, 0, 5], [0, 4, 0]]   # repeated string with a non-commuting term in between
+    lists = [list(c) for k in range(1, 4) for c in itertools.product(range(len(POOL)), repeat=k)]   # all ordered lists (with repetition) of <= 3 pool terms, both tiers
     steps = [1, 2, 3, 4] if thorough else [1, 2, 3]
     secs.append(Section("sums", [{"terms": [POOL[i] for i in l], "steps": s, "times": times} for l in lists for s in steps], sum_case, horizon=300,
                         desc="time_evolution on ordered term lists (with repetition): structure + matrix"))
